@@ -177,6 +177,20 @@ def _module(ctx, cfg):
                 for p in mod.parameters():
                     p.mul_(-2.0)
             ctx.holds("module/changing the amplitude network never changes the phase network" + t, all(torch.equal(p.detach(), keep[n]) for n, p in ph.named_parameters()))
+            # history: a second state built around the same module object (now holding other values): its phase network is
+            # its own copy of the module's current values, and the first state's phase network stays what it was
+            now = {n: p.detach().clone() for n, p in mod.named_parameters()}
+            with warnings.catch_warnings():
+                warnings.simplefilter("ignore")
+                s3 = _cls(kind)(99, module=mod, gpu=gpu)
+            ctx.holds("module/a second state built around the same module gets its own phase network, a copy of the module's current values" + t,
+                      s3.rbm_ph is not s.rbm_ph and s3.rbm_ph is not mod and all(torch.equal(p.detach(), now[n]) for n, p in s3.rbm_ph.named_parameters())
+                      and not (set(_ptrs(s3.rbm_ph).values()) & (set(_ptrs(s.rbm_ph).values()) | set(ptr0.values()))))
+            with torch.no_grad():
+                for p in s3.rbm_ph.parameters():
+                    p.sub_(0.5)
+            ctx.holds("module/changing the second state's phase network never changes the first state's" + t,
+                      all(torch.equal(p.detach(), keep[n]) for n, p in s.rbm_ph.named_parameters()))
 
 
 def _reinit(ctx, cfg):
